@@ -314,10 +314,22 @@ def replay(run, path):
         for attempt in range(3):
             p = subprocess.run([vd, "conc", "sched", "-in", inp, "-out", inp + ".res"], capture_output=True, text=True)
             if p.returncode != 0:
+                from vcheck import library_fault
+                if library_fault(p.stderr):
+                    log("  forced schedule, attempt %d: the process crashed: %s" % (attempt + 1, library_fault(p.stderr)))
+                    bad += 1
+                    continue
                 raise Broken("conc sched failed: " + p.stderr[-1500:])
             r = json.loads(open(inp + ".res").read())
             log("  forced schedule, attempt %d: %s %s" % (attempt + 1, r["verdict"], r["why"]))
-            bad += r["verdict"] == "violation"
+            if r["verdict"] in ("diverged", "mismatch") and r.get("history"):
+                from vcheck import run_tlc, tlc_prints
+                tp = os.path.join(run.scratch, "sched-history.ndjson")
+                open(tp, "w").write("\n".join(json.dumps(e) for e in r["history"]) + "\n")
+                t = run_tlc("TraceRegistry.tla", "TraceRegistry.cfg", run.scratch, env={"VERIF_TRACE": tp}, workers=1)
+                reached, total = [int(x) for x in tlc_prints(t["out"], "HIGHWATER")[-1].split(",")]
+                log("    observed history linearizable: %s" % (reached == total + 1))
+                bad += reached != total + 1
         if bad:
             log("VIOLATION property=%s replay=%s" % (rp["property"], path))
             return 1
